@@ -2,6 +2,22 @@ module verifh
 
 go 1.23
 
-require rare v0.0.0
+require (
+	github.com/araddon/dateparse v0.0.0-20210207001429-0eec95c9db7e
+	github.com/urfave/cli/v2 v2.11.2
+	rare v0.0.0
+)
+
+require (
+	github.com/cpuguy83/go-md2man/v2 v2.0.2 // indirect
+	github.com/fsnotify/fsnotify v1.4.9 // indirect
+	github.com/russross/blackfriday/v2 v2.1.0 // indirect
+	github.com/tidwall/gjson v1.14.1 // indirect
+	github.com/tidwall/match v1.1.1 // indirect
+	github.com/tidwall/pretty v1.2.0 // indirect
+	github.com/xrash/smetrics v0.0.0-20201216005158-039620a65673 // indirect
+	golang.org/x/sys v0.1.0 // indirect
+	golang.org/x/term v0.0.0-20210503060354-a79de5458b56 // indirect
+)
 
 replace rare => /repo
